@@ -487,13 +487,20 @@ func appendInt(dst []byte, bits uint8, index uint64) []byte {
 	}
 	b0 := uint64(1<<bits - 1)
 
-	if index <= b0 {
+	if index < b0 {
 		dst[len(dst)-1] |= byte(index)
 		return dst
 	}
 
+	// A prefix of all ones says that more bytes follow, also when what is left
+	// is zero: the value 2^bits-1 itself is the prefix and a zero byte.
 	dst[len(dst)-1] |= byte(b0)
 	index -= b0
+
+	if index == 0 {
+		return append(dst, 0)
+	}
+
 	for index != 0 {
 		dst = append(dst, 128|byte(index&127))
 		index >>= 7
